@@ -19,6 +19,17 @@ Theorem C12_error_class_converts c e : errclass_ret c e = SUCCESS c.
 Proof. exact (errclass_ret_ok c e). Qed.
 Print Assumptions C12_error_class_converts.
 
+(* the table by class name, identical in both configurations (ENOENT is "no such file", ...; an unlisted value is UNKNOWN) *)
+Theorem C12_error_class_table c :
+  class_index c (errclass c e_ENOENT) = IDX_NO_SUCH_FILE /\ class_index c (errclass c e_EEXIST) = IDX_FILE_EXISTS
+  /\ class_index c (errclass c e_EACCES) = IDX_ACCESS /\ class_index c (errclass c e_ENOSPC) = IDX_NO_SPACE
+  /\ class_index c (errclass c e_ENOMEM) = IDX_NO_MEM /\ class_index c (errclass c e_EIO) = IDX_IO
+  /\ class_index c (errclass c e_EISDIR) = IDX_BAD_FILE /\ class_index c (errclass c e_ENAMETOOLONG) = IDX_BAD_FILE
+  /\ class_index c (errclass c e_EINVAL) = IDX_AMODE /\ class_index c (errclass c 0) = 0
+  /\ class_index c (errclass c 100000) = IDX_UNKNOWN.
+Proof. exact (errclass_table c). Qed.
+Print Assumptions C12_error_class_table.
+
 (* ---- open: same class on all ranks; SUCCESS iff fopen did not fail; a failed open leaves no context, no stream *)
 Theorem C12_open cfg P g am g' cls : 0 < P -> plan_ok (w_plan (g_w g)) ->
   g_open cfg P g am = (g', cls) ->
